@@ -195,8 +195,9 @@ Qed.
 Section Extends.
 Variable P : chunk -> Prop.
 Variable Q : pmodel -> Prop.
-Hypothesis Q_mesh : forall mo, Q mo -> Forall P (mesh_chunks (mo_mesh mo)).
-Hypothesis Q_inst : forall mo, Q mo -> Forall P (inst_chunks (mo_inst mo)).
+(* only models with a primitive write their mesh, only non-empty instance lists are written *)
+Hypothesis Q_mesh : forall mo, Q mo -> (prim_count (mo_mesh mo) =? 0) = false -> Forall P (mesh_chunks (mo_mesh mo)).
+Hypothesis Q_inst : forall mo, Q mo -> mo_inst mo <> [] -> Forall P (inst_chunks (mo_inst mo)).
 
 Definition extends (b b' : bufst) : Prop := exists ext, Forall P ext /\ b' = of_chunks (b_chunks b ++ ext).
 Lemma extends_refl b : canon b -> extends b b.
@@ -209,26 +210,27 @@ Proof.
   cbn [b_chunks of_chunks]. rewrite app_assoc. reflexivity.
 Qed.
 
-Lemma place_mesh_b mo mati s : Q mo -> canon (st_b s) -> extends (st_b s) (st_b (snd (place_mesh mo mati s))).
+Lemma place_mesh_b mo mati s : Q mo -> (prim_count (mo_mesh mo) =? 0) = false -> canon (st_b s) ->
+  extends (st_b s) (st_b (snd (place_mesh mo mati s))).
 Proof.
-  intros HQ Hc. unfold place_mesh. destruct (find_mesh _ _); [apply extends_refl, Hc|].
+  intros HQ Hlive Hc. unfold place_mesh. destruct (find_mesh _ _); [apply extends_refl, Hc|].
   destruct (mesh_data_b (mo_mesh mo) s Hc) as [E|(_ & E)].
   - destruct (mesh_data (mo_mesh mo) s) as [[ai b] wr]. cbn [fst snd st_b] in *. subst b. apply extends_refl, Hc.
-  - rewrite E. cbn [snd st_b]. eexists. split; [apply Q_mesh, HQ|reflexivity].
+  - rewrite E. cbn [snd st_b]. eexists. split; [apply Q_mesh; [exact HQ|exact Hlive]|reflexivity].
 Qed.
 
 Lemma add_mesh_b mo s : Q mo -> canon (st_b s) -> extends (st_b s) (st_b (snd (add_mesh mo s))).
 Proof.
-  intros HQ Hc. unfold add_mesh. destruct (prim_count (mo_mesh mo) =? 0); [apply extends_refl, Hc|].
+  intros HQ Hc. unfold add_mesh. destruct (prim_count (mo_mesh mo) =? 0) eqn:Hlive; [apply extends_refl, Hc|].
   pose proof (resolve_material_b mo s) as E. destruct (resolve_material mo s) as [mati s1]. cbn [snd] in E.
-  rewrite <- E. apply place_mesh_b; [exact HQ|]. rewrite E. exact Hc.
+  rewrite <- E. apply place_mesh_b; [exact HQ|exact Hlive|]. rewrite E. exact Hc.
 Qed.
 
 Lemma add_node_b mo mi s : Q mo -> canon (st_b s) -> extends (st_b s) (st_b (add_node mo mi s)).
 Proof.
   intros HQ Hc. unfold add_node, node_inst. pose proof (Q_inst mo HQ) as HI. destruct (mo_inst mo) as [|i0 ins].
   - apply extends_refl, Hc.
-  - rewrite (canon_of_chunks _ Hc). rewrite write_instances_of. cbn [st_b]. eexists. split; [exact HI|reflexivity].
+  - rewrite (canon_of_chunks _ Hc). rewrite write_instances_of. cbn [st_b]. eexists. split; [apply HI; discriminate|reflexivity].
 Qed.
 
 Lemma add_model_b s mo : Q mo -> canon (st_b s) -> extends (st_b s) (st_b (add_model s mo)).
@@ -252,8 +254,8 @@ Lemma fold_lights_b ls s : st_b (fold_left add_light ls s) = st_b s.
 Proof. revert s. induction ls as [|l r IH]; intros s; cbn [fold_left]; [reflexivity|]. rewrite IH. reflexivity. Qed.
 
 Theorem run_chunks (P : chunk -> Prop) (Q : pmodel -> Prop) :
-  (forall mo, Q mo -> Forall P (mesh_chunks (mo_mesh mo))) ->
-  (forall mo, Q mo -> Forall P (inst_chunks (mo_inst mo))) ->
+  (forall mo, Q mo -> (prim_count (mo_mesh mo) =? 0) = false -> Forall P (mesh_chunks (mo_mesh mo))) ->
+  (forall mo, Q mo -> mo_inst mo <> [] -> Forall P (inst_chunks (mo_inst mo))) ->
   forall sc, Forall Q (sc_models sc) ->
   exists cks, Forall P cks /\ st_b (run sc) = of_chunks cks.
 Proof.
@@ -553,8 +555,8 @@ Qed.
 Theorem run_chunks_ok sc : scene_ok sc -> exists cks, Forall chunk_ok cks /\ st_b (run sc) = of_chunks cks.
 Proof.
   apply (run_chunks chunk_ok model_ok).
-  - intros mo (H & _). apply mesh_chunks_ok, H.
-  - intros mo (_ & H). apply inst_chunks_ok, H.
+  - intros mo (H & _) _. apply mesh_chunks_ok, H.
+  - intros mo (_ & H) _. apply inst_chunks_ok, H.
 Qed.
 
 (* views: consecutive from 0, pairwise disjoint, inside the first [b_written] bytes (the declared
